@@ -388,7 +388,11 @@ func runSolver(ctx context.Context, s Solver, file string, to int) solveOut {
 }
 
 // Solve races the solvers; returns the first definite answer.
-func Solve(file string, timeout int, quickFirst bool) solveOut {
+// preferredCfg remembers, per function, which E-matching configuration decided its last hard obligation: the obligations
+// of one function resemble each other, so that configuration is tried first for the next one (order only; same verdicts).
+var preferredCfg sync.Map
+
+func Solve(file string, timeout int, quickFirst bool, fn string) solveOut {
 	if quickFirst {
 		// two single-process attempts before the race (a race of five solvers per worker starves every one of them of CPU):
 		// the default configuration decides most obligations within 2 s, pure E-matching without array extensionality
@@ -397,11 +401,16 @@ func Solve(file string, timeout int, quickFirst bool) solveOut {
 		if r.answer == "sat" || r.answer == "unsat" {
 			return r
 		}
-		for _, name := range []string{"z3-5.1.0-ematch-noext", "z3-5.1.0-ematch-noext-norel"} {
+		order := []string{"z3-5.1.0-ematch-noext", "z3-5.1.0-ematch-noext-norel"}
+		if p, ok := preferredCfg.Load(fn); ok && p.(string) == order[1] {
+			order[0], order[1] = order[1], order[0]
+		}
+		for _, name := range order {
 			for _, s := range solvers {
 				if s.Name == name {
 					r := runSolver(context.Background(), s, file, min(8, timeout))
 					if r.answer == "unsat" {
+						preferredCfg.Store(fn, name)
 						return r
 					}
 				}
@@ -469,7 +478,7 @@ func Discharge(em *Emitter, obls []*Obligation, dir string, timeout int, workers
 				if fc.Load() >= 8 && to > 3 {
 					to = 3 // many obligations already failed: the verdict is settled, do not spend minutes on the rest
 				}
-				r = Solve(file, to, true)
+				r = Solve(file, to, true, o.Func)
 				if r.answer != "unsat" {
 					fc.Add(1)
 				}
